@@ -98,6 +98,7 @@ for Crossbeam<'a, ItemType, BUFFER_SIZE, MAX_STREAMS> {
     fn send(&self, item: ItemType) -> keen_retry::RetryConsumerResult<(), ItemType, ()> {
         match self.tx.len() {
             len_before if len_before <= 2 => {
+                #[cfg(feature = "verif")] crate::verif::note(crate::verif::UNI_XB_BETWEEN_LEN_AND_SEND, len_before as u64);
                 #[cfg(feature = "verif")] crate::verif::point(crate::verif::UNI_XB_BETWEEN_LEN_AND_SEND);
                 let ret = self.tx.try_send(item);
                 #[cfg(feature = "verif")] crate::verif::point(crate::verif::UNI_XB_AFTER_SEND_BEFORE_WAKE);
